@@ -416,7 +416,10 @@ theorem tickDispatchers_steps : ∀ (is : List Nat) (cp : CP), DCI cp →
       exact (dispTick_steps cp i hdc).trans (ih _ (dispTick_DCI cp i hdc))
 
 theorem handleLaunch_steps (cp : CP) : Steps (handleLaunch cp).2 cp.view (handleLaunch cp).1.view := by
-  unfold handleLaunch
+  rcases handleLaunch_cases cp with e | ⟨e, _⟩
+  case inr => rw [e]; exact Steps.refl _   -- a rejection: no step of the view (only the fault is raised)
+  rw [e]
+  unfold handleLaunchOld
   cases hdr : cp.drvIn with
   | nil => exact Steps.refl _
   | cons k rest =>
